@@ -134,14 +134,11 @@ def rule_log_paths(ctx, r):
     r.check(paths.get(False) == want_out and paths.get(True) == want_err, f"{lg.module.relpath}::{lg.qual}", "`gwf logs T` reads .stdout, `-e` reads .stderr under <project>/.gwf/logs",
             f"`gwf logs` opens {paths}", lg.where)
     # local pool writer (C13.R4 checks buffers; here the location)
-    th = idx.func("gwf.backends.local:Scheduler.try_handle_task")
-    locs = []
-    for c in _calls(th.node):
-        if isinstance(c.func, (ast.Name, ast.Attribute)) and idx.canon(c.func, th.module) == "builtins.open" and c.args:
-            t = ast.unparse(c.args[0]).replace('"', "'")
-            locs.append(t)
-    ok = sorted(locs) == sorted(["self.working_dir.joinpath('.gwf', 'logs', f'{name}.stdout')", "self.working_dir.joinpath('.gwf', 'logs', f'{name}.stderr')"])
-    r.check(ok, f"{th.module.relpath}::{th.qual}::log-location", "local pool writes <project>/.gwf/logs/<name>.stdout|.stderr",
+    from .localpool import explore_task
+    th, sem, _outs, _steps = explore_task(ctx)
+    locs = sorted(site["path"] for site in sem.log_list)
+    want = sorted([f"{PROJ}/.gwf/logs/⟦NAME⟧.stdout", f"{PROJ}/.gwf/logs/⟦NAME⟧.stderr"])
+    r.check(locs == want, f"{th.module.relpath}::{th.qual}::log-location", "local pool writes <project>/.gwf/logs/<name>.stdout|.stderr",
             f"the local pool writes its logs to {locs}", th.where)
 
 
@@ -267,27 +264,13 @@ def rule_resolution(ctx, r):
 
 def rule_log_cleaning(ctx, r):
     idx = ctx.index
-    cl = idx.func("gwf.plugins.run:clean_logs")
+    from .evalhelpers import eval_clean_logs
+    removed, listed, cl = eval_clean_logs(ctx)
     con = f"{cl.module.relpath}::{cl.qual}"
-    removes = [c for c in _calls(cl.node) if isinstance(c.func, (ast.Name, ast.Attribute)) and idx.canon(c.func, cl.module) in ("os.remove", "os.unlink")]
-    loops = {n.target.id: n for n in walk_no_nested(cl.node) if isinstance(n, ast.For) and isinstance(n.target, ast.Name)}
-    ok = bool(removes)
-    for c in removes:
-        names = {x.id for x in ast.walk(c) if isinstance(x, ast.Name)}
-        lv = [v for v in loops if v in names]
-        if not lv:
-            ok = False
-            continue
-        it = ast.unparse(loops[lv[0]].iter).replace(" ", "")
-        if it not in ("log_files.difference(target_set)", "log_files-target_set"):
-            ok = False
-        t = ast.unparse(c.args[0]).replace('"', "'")
-        if not (".gwf" in t and "logs" in t and (".stdout" in t or ".stderr" in t)):
-            ok = False
-    tset = any(isinstance(n, ast.Assign) and dotted(n.targets[0]) == "target_set" and ast.unparse(n.value).replace(" ", "") in ("set(graph.targets.keys())", "set(graph.targets)")
-               for n in walk_no_nested(cl.node))
-    r.check(ok and tset, con, "removes only <name>.stdout/.stderr for names in (log files - current target names)",
-            "log cleaning can remove logs of targets that are still part of the workflow (or other files)", cl.where)
+    want = sorted(f"{PROJ}/.gwf/logs/{n}" for n in ("old.stdout", "old.stderr", "gone.stdout", "gone.stderr"))
+    r.check(removed == want and listed == [f"{PROJ}/.gwf/logs"], con, "removes only <name>.stdout/.stderr for names in (log files - current target names)",
+            f"with targets A, B and logs of A, B, old, gone in {listed}, log cleaning removes {removed}: it must remove exactly the logs of `old` and `gone` "
+            "(targets that left the workflow) and never a log of a current target", cl.where)
     run_f = idx.func("gwf.plugins.run:run")
     guard = None
     for n in walk_no_nested(run_f.node):
